@@ -113,6 +113,8 @@ func (o Op) coq() string {
 		return "ODeleteRegion " + coqfmt.ZU(o.ID)
 	case "flush":
 		return "OFlush"
+	case "flushfail":
+		return "OFlushF"
 	case "switch":
 		return "OSwitch " + coqfmt.Bool(o.P != 0)
 	case "crash":
@@ -331,6 +333,20 @@ func (w *world) exec(o *Op) string {
 		if err := w.st.Flush(); err != nil {
 			panic(err)
 		}
+	case "flushfail":
+		// a transient failure of the leveldb write: the handle is closed for the duration of one Flush (the store is away for
+		// a moment) and brought back by the hook; Flush must report the error and keep the batch
+		if err := w.rs.LeveldbKV.Close(); err != nil {
+			panic(err)
+		}
+		ferr := w.st.Flush()
+		if err := core.VerifReopenLeveldb(w.rs, filepath.Join(w.dir, "region-meta")); err != nil {
+			panic(err)
+		}
+		if ferr != nil {
+			return "BErr"
+		}
+		return "BUnit"
 	case "switch":
 		w.useRS = o.P != 0
 		if w.useRS {
@@ -787,7 +803,16 @@ func genStores(r *rng.R, k int) Case {
 			c.Ops = append(c.Ops, Op{K: "saveweightf", ID: id, LW: int64(r.Intn(5000)), RW: int64(r.Intn(5000)), Stg: r.Intn(2), Ap: r.Bool()})
 		}
 		if weightAll || r.Pct(30) {
-			c.Ops = append(c.Ops, Op{K: "saveweight", ID: id, LW: int64(1 + r.Intn(5000)), RW: int64(1 + r.Intn(5000))})
+			lw, rw := int64(1+r.Intn(5000)), int64(1+r.Intn(5000))
+			switch r.Intn(6) {
+			case 0: // more significant digits than a float32 holds
+				lw = int64(100000000 + r.Intn(900000000))
+			case 1: // integers above 2^24
+				rw = (16777217 + int64(r.Intn(1000000))) * 1000
+			case 2:
+				lw, rw = int64(r.U64()>>24), int64(r.U64()>>30)
+			}
+			c.Ops = append(c.Ops, Op{K: "saveweight", ID: id, LW: lw, RW: rw})
 		}
 	}
 	c.Ops = append(c.Ops, Op{K: "loadstores"})
@@ -867,6 +892,9 @@ func genRegions(r *rng.R, k int) Case {
 			c.Ops = append(c.Ops, Op{K: "delregion", ID: saved[r.Intn(len(saved))]})
 		}
 		if rsMode && r.Pct(2) {
+			c.Ops = append(c.Ops, Op{K: "flushfail"})
+		}
+		if rsMode && r.Pct(2) {
 			c.Ops = append(c.Ops, Op{K: []string{"flush", "crash", "reopen", "cancelclose"}[r.Intn(4)]})
 		}
 	}
@@ -909,6 +937,9 @@ func genRegions(r *rng.R, k int) Case {
 		}
 		mult := []int64{40, 110, 160, 320, 700, 3000}[r.Intn(6)]
 		c.Ops = append(c.Ops, Op{K: "budget", P: per * mult})
+	}
+	if rsMode && r.Pct(40) {
+		c.Ops = append(c.Ops, Op{K: "flushfail"})
 	}
 	if rsMode && r.Pct(85) {
 		c.Ops = append(c.Ops, Op{K: []string{"flush", "flush", "cancelclose", "reopen"}[r.Intn(4)]})
@@ -1062,8 +1093,13 @@ func fixedCases() []Case {
 	// over its warm cache: the record must be brought up to date, not deleted
 	reelected := Case{Backend: "etcd", Ops: []Op{{K: "saveregion", ID: 1, V: &RV{Start: 0, End: 100, ConfVer: 5, Version: 5}}, {K: "saveregion", ID: 2, V: &RV{Start: 100, End: 0, ConfVer: 5, Version: 5}},
 		{K: "loadoncecache"}, {K: "saveregionf", ID: 1, V: &RV{Start: 0, End: 100, ConfVer: 6, Version: 5}, Ap: false}, {K: "loadwarm"}, {K: "loadregions"}}}
+	// a transient failure of the leveldb write under a flush: the error is reported, the batch is kept, the next flush writes it
+	flushFault := Case{Backend: "mem", Ops: append(append([]Op{{K: "switch", P: 1}}, six()...), Op{K: "flushfail"}, Op{K: "flush"}, Op{K: "reopen"}, Op{K: "loadregions"})}
+	// store weights that float32 cannot hold: more than 7 significant digits, an integer above 2^24
+	precise := Case{Backend: "mem", Ops: []Op{{K: "savestore", ID: 1, P: 1}, {K: "saveweight", ID: 1, LW: 123456789, RW: 16777217000},
+		{K: "savestore", ID: 2, P: 2}, {K: "saveweight", ID: 2, LW: 1099511627775, RW: 1}, {K: "loadstores"}}}
 	return []Case{
-		wrap, delBoth, pruneBoth, onceRetry, oncePair, cancelClose, handOver, reelected, tick, cif(true), cif(false), faults, raceCase(true), raceCase(false), raceCase(true), raceCase(false),
+		wrap, delBoth, pruneBoth, onceRetry, oncePair, cancelClose, handOver, reelected, flushFault, precise, tick, cif(true), cif(false), faults, raceCase(true), raceCase(false), raceCase(true), raceCase(false),
 		// S9 on the stores namespace and on the regions namespace
 		{Backend: "mem", Ops: []Op{{K: "savestore", ID: 1, P: 1}, {K: "savestore", ID: top, P: 2}, {K: "loadstores"}}},
 		{Backend: "mem", Ops: []Op{{K: "saveregion", ID: 1, V: one}, {K: "saveregion", ID: top, V: two}, {K: "loadregions"}}},
@@ -1335,6 +1371,8 @@ func checkGo(R *res.Result, c Case) {
 				known = false
 			}
 			rs = o.P != 0
+		case "flushfail":
+			// nothing is promised: the batch must be kept (the Coq monitor judges the loads after the next successful flush)
 		case "flush", "reopen", "cancelclose":
 			dirty = false
 			pending = map[uint64]bool{}
